@@ -37,6 +37,10 @@ def classify(m):
                 msg = re.sub(r'\d+', 'N', msg)[:60]
             except Exception:
                 pass
+            if ecore[1] == 'AttributeError' and 'has no attribute' in msg:
+                # o.meth(args) on an object without that method: CPython fails at the lookup, compiled code evaluates
+                # the arguments first and may fail there with another exception (same mechanism as the key below)
+                return 'method-lookup-after-argument-evaluation'
             return 'exc-type:%s->%s:%s' % (ecore[1], gcore[1], msg)
         # same type, different args. Only a difference in the *wording* of a single message string produced by
         # Cython's own runtime helper is classed as msg-text (keyed by the normalised compiled wording);
